@@ -22,6 +22,7 @@ META = {
         "Not decided: identity for every verb/seqn/address shape (values) - only that readers and writers agree on where each field is."
     ),
 }
+META["explanation"] += " C02.R1 also: a truncating slice on an assembled payload keeps the regex's maximum payload width. C02.R3 also: decision table of the seqn normalisation (only None/blank forms become '---'). C02.R5: _Logger.makeRecord mutates its `extra` mapping only after re-binding it to a copy."
 
 _P = re._parser  # type: ignore[attr-defined]
 _C = re._constants  # type: ignore[attr-defined]
